@@ -62,6 +62,22 @@ func init() {
 				{File: cfgFile, Old: "\tcp := *c\n\n\tcp.Listeners", New: "\tcp := c\n\n\tcp.Listeners"},
 				{File: cfgFile, Old: "\n\treturn &cp\n}", New: "\n\treturn cp\n}"},
 			}},
+			{Name: "either/or helper: only the first non-empty form of a TLS key is blanked", ExpectRule: "C35.R1", ExpectKey: "TLS.KeyPEM", Edits: []Edit{
+				{File: cfgFile, Old: "\tredact(&redacted.TLS.Key)\n\tredact(&redacted.TLS.KeyPEM)\n", New: "\tredactEither(&redacted.TLS.Key, &redacted.TLS.KeyPEM)\n"},
+				{File: cfgFile, Old: "// Redacted returns a copy of the config with sensitive values redacted.", New: "func redactEither(a, b *string) {\n\tswitch {\n\tcase *a != \"\":\n\t\tredact(a)\n\tcase *b != \"\":\n\t\tredact(b)\n\t}\n}\n\n// Redacted returns a copy of the config with sensitive values redacted."},
+			}},
+			{Name: "fast path: unredacted copy returned when another predicate sees no secrets", ExpectRule: "C35.R1", Edits: []Edit{
+				{File: cfgFile, Old: "redacted := c.deepCopy()", New: "redacted := c.deepCopy()\n\tif !c.HasSensitiveData() {\n\t\treturn redacted\n\t}"},
+			}},
+			{Name: "String takes the unsafe renderer when a predicate sees no secrets", ExpectRule: "C35.R4", Edits: []Edit{
+				{File: cfgFile, Old: "\tredacted := c.Redacted()\n\tdata, _ := yaml.Marshal(redacted)", New: "\tif !c.HasSensitiveData() {\n\t\treturn c.StringUnsafe()\n\t}\n\tredacted := c.Redacted()\n\tdata, _ := yaml.Marshal(redacted)"},
+			}},
+			{Name: "loop blanks a per-iteration copy of the element", ExpectRule: "C35.R1", ExpectKey: "Listeners[].TLS.Key", Edits: []Edit{
+				{File: cfgFile, Old: "\tfor i := range redacted.Listeners {\n\t\tredact(&redacted.Listeners[i].TLS.Key)\n\t\tredact(&redacted.Listeners[i].TLS.KeyPEM)\n\t}", New: "\tfor _, l := range redacted.Listeners {\n\t\tredact(&l.TLS.Key)\n\t\tredact(&l.TLS.KeyPEM)\n\t}"},
+			}},
+			{Name: "only the first list entry is blanked", ExpectRule: "C35.R1", ExpectKey: "SOCKS5.Auth.Users[].Password", Edits: []Edit{
+				{File: cfgFile, Old: "\tfor i := range redacted.SOCKS5.Auth.Users {", New: "\tfor i := range redacted.SOCKS5.Auth.Users[:min(1, len(redacted.SOCKS5.Auth.Users))] {"},
+			}},
 			{Name: "String renders the receiver", ExpectRule: "C35.R4", Edits: []Edit{
 				{File: cfgFile, Old: "\tredacted := c.Redacted()\n\tdata, _ := yaml.Marshal(redacted)", New: "\tdata, _ := yaml.Marshal(c)"},
 			}},
